@@ -64,6 +64,14 @@ def precipPhaseR : List (String × String × Bool) :=
    ("PBM_size_", "PBM.PSDsize", false),
    ("eqAspectRatio_", "eqAspectRatio", false)]
 
+/-- PrecipitateModel.fromDict: global slots set to None whatever the data -/
+def precipGlobalReset : List String :=
+  []
+
+/-- PrecipitateModel.fromDict: per-phase slots set to None whatever the data (the PopulationBalanceModel objects are replaced) -/
+def precipPhaseReset : List String :=
+  ["PBM._recordedTime", "PBM._recordedBins", "PBM._recordedPSD"]
+
 /-- phase names of the model the lines were recorded on -/
 def precipRecordedPhases : List String :=
   ["PHA", "PHB"]
@@ -130,15 +138,19 @@ def precipRecordedR : List (String × String × Bool) :=
 def diffW : List (String × String × Bool) :=
   [("finalTime", "t", false),
    ("finalX", "x", false),
-   ("recordX", "_recordedX", false),
-   ("recordTime", "_recordedTime", false)]
+   ("recordX", "_recordedX", true),
+   ("recordTime", "_recordedTime", true)]
 
 /-- DiffusionModel.fromDict -/
 def diffR : List (String × String × Bool) :=
   [("finalTime", "t", false),
    ("finalX", "x", false),
-   ("recordX", "_recordedX", false),
-   ("recordTime", "_recordedTime", false)]
+   ("recordX", "_recordedX", true),
+   ("recordTime", "_recordedTime", true)]
+
+/-- DiffusionModel.fromDict: slots set to None whatever the data -/
+def diffReset : List String :=
+  []
 
 /-- public getters of BinarySurrogate -/
 def binaryGetters : List String :=
@@ -149,7 +161,7 @@ def binaryFallthrough : List (String × String) :=
   [("getDrivingForce", "getDrivingForce"),
    ("getInterdiffusivity", "getInterdiffusivity"),
    ("getInterfacialComposition", "getInterfacialComposition"),
-   ("getTracerDiffusivity", "getInterdiffusivity")]
+   ("getTracerDiffusivity", "getTracerDiffusivity")]
 
 /-- untrained BinarySurrogate: (getter, exactly one call, arguments and result handed through unchanged) -/
 def binaryPassThrough : List (String × Bool) :=
@@ -168,7 +180,7 @@ def multiFallthrough : List (String × String) :=
    ("getDrivingForce", "getDrivingForce"),
    ("getGrowthAndInterfacialComposition", "getGrowthAndInterfacialComposition"),
    ("getInterdiffusivity", "getInterdiffusivity"),
-   ("getTracerDiffusivity", "getInterdiffusivity"),
+   ("getTracerDiffusivity", "getTracerDiffusivity"),
    ("impingementFactor", "impingementFactor")]
 
 /-- untrained MulticomponentSurrogate: (getter, exactly one call, arguments and result handed through unchanged) -/
